@@ -212,9 +212,10 @@ pub enum CBORCase {
 #[verifier::external_body]
 #[derive(Debug)]
 pub struct CborText { _p: () }
-#[verifier::external_body]
+// dcbor::Simple: the simple values (the float payload is never looked at)
 #[derive(Debug)]
-pub struct Simple { _p: () }
+pub enum Simple { False, True, Null, Float(f64) }
+pub mod dcbor { pub use super::Simple; }
 #[derive(Debug)]
 pub struct ByteString { pub data: Vec<u8> }
 impl View for ByteString {
@@ -287,6 +288,15 @@ impl vstd::std_specs::convert::FromSpecImpl<u64> for CBOR {
 impl From<u64> for CBOR {
     fn from(v: u64) -> Self { CBOR(RefCounted::new(CBORCase::Unsigned(v))) }
 }
+// dcbor `From<Simple> for CBOR`: the Simple item  [A-simple-cbor]
+impl vstd::std_specs::convert::FromSpecImpl<Simple> for CBOR {
+    open spec fn obeys_from_spec() -> bool { true }
+    open spec fn from_spec(v: Simple) -> Self { CBOR(RefCounted::new(CBORCase::Simple(v))) }
+}
+impl From<Simple> for CBOR {
+    fn from(v: Simple) -> Self { CBOR(RefCounted::new(CBORCase::Simple(v))) }
+}
+pub open spec fn cbor_null() -> CBOR { CBOR(RefCounted::new(CBORCase::Simple(Simple::Null))) }
 // dcbor `From<u32> for CBOR`, `From<u8>`, `From<u16>`: the unsigned item of the widened value  [A-uint-cbor]
 impl vstd::std_specs::convert::FromSpecImpl<u32> for CBOR {
     open spec fn obeys_from_spec() -> bool { true }
@@ -548,6 +558,11 @@ pub assume_specification<T> [std::option::Option::<T>::as_deref] (o: &std::optio
 pub uninterp spec fn deref_target<T: std::ops::Deref>(t: &T) -> &<T as std::ops::Deref>::Target;
 pub broadcast axiom fn axiom_string_deref(s: &String)
     ensures (#[trigger] deref_target::<String>(s))@ == s@;
+// [A-option-map-or-else] Option::map_or_else: the default closure on None, the mapping closure on the content
+pub assume_specification<T, U, D, F> [std::option::Option::<T>::map_or_else] (o: std::option::Option<T>, d: D, f: F) -> (r: U)
+    where D: std::ops::FnOnce() -> U + std::marker::Destruct, F: std::ops::FnOnce(T,) -> U + std::marker::Destruct,
+    requires o is None ==> call_requires(d, ()), o matches Some(x) ==> call_requires(f, (x,)),
+    ensures o is None ==> call_ensures(d, (), r), o matches Some(x) ==> call_ensures(f, (x,), r);
 // [A-unwrap-or-else] Result::unwrap_or_else
 pub assume_specification<T, E, F> [std::result::Result::<T, E>::unwrap_or_else] (res: std::result::Result<T, E>, f: F) -> (o: T)
     where F: std::ops::FnOnce(E,) -> T + std::marker::Destruct,
@@ -769,16 +784,26 @@ impl RandomNumberGenerator for SecureRandomNumberGenerator { }
 pub mod bc_rand { pub use super::SecureRandomNumberGenerator; pub use super::RandomNumberGenerator; }
 impl Salt {
     pub uninterp spec fn len_spec(&self) -> nat;
+    // [A-salt-for-size] bc-components Salt::new_for_size_using: a length between max(8, ceil(5% of size)) and
+    // max(min + 8, ceil(25% of size)); the f64 arithmetic `(size as f64 * 0.05).ceil()` is idealised as the integer ceiling
     #[verifier::external_body]
-    pub fn new_for_size_using<R: RandomNumberGenerator>(size: usize, rng: &mut R) -> (r: Salt) { unimplemented!() }
+    pub fn new_for_size_using<R: RandomNumberGenerator>(size: usize, rng: &mut R) -> (r: Salt)
+        ensures salt_len_ok(size as nat, r.len_spec())
+    { unimplemented!() }
     #[verifier::external_body]
     pub fn new_with_len_using<R: RandomNumberGenerator>(count: usize, rng: &mut R) -> (r: Result<Salt>)
         ensures r matches Ok(s) ==> s.len_spec() == count, count < 8 ==> r is Err
     { unimplemented!() }
+    // [A-salt-in-range] bc-components Salt::new_in_range_using: refused below 8, else a length within the range
     #[verifier::external_body]
     pub fn new_in_range_using<R: RandomNumberGenerator>(range: &std::ops::RangeInclusive<usize>, rng: &mut R) -> (r: Result<Salt>)
+        ensures r matches Ok(s) ==> range@.start <= s.len_spec() <= range@.end, range@.start < 8 ==> r is Err
     { unimplemented!() }
 }
+// the documented salt length range for content of `size` bytes
+pub open spec fn salt_min(size: nat) -> nat { let m = (size + 19) / 20; if m > 8 { m } else { 8 } }
+pub open spec fn salt_max(size: nat) -> nat { let m = (size + 3) / 4; if m > salt_min(size) + 8 { m } else { salt_min(size) + 8 } }
+pub open spec fn salt_len_ok(size: nat, len: nat) -> bool { salt_min(size) <= len <= salt_max(size) }
 
 // ============================================================================ signatures (bc-components signing)
 #[verifier::external_body]
@@ -1118,6 +1143,7 @@ impl Clone for ARID {
     #[verifier::external_body]
     fn clone(&self) -> (r: Self) ensures r == *self { unimplemented!() }
 }
+impl Copy for ARID { }
 pub uninterp spec fn arid_cbor(x: ARID) -> CBOR;
 // [A-arid-codec-shape] an ARID's CBOR is tagged #6.40012 (bc-components `impl CBORTaggedEncodable for ARID`)
 pub broadcast axiom fn axiom_arid_cbor_shape(x: ARID)
